@@ -28,6 +28,8 @@ EXPLANATION = (
     ' shorthand, both loops alike) runs here as well.'
     ' R20.9: every written matrix is transform * inverse(viewport transform) and the reader multiplies the'
     ' viewport transform back in; the two-sided inverse identities of C04 R04.5 run here as well.'
+    " R20.10: the reader folds a written matrix into rect / round-shape attributes when reify=True; C02's reify"
+    ' algebra runs here as well.'
 )
 TECHNIQUE = (
     "static analysis (no execution): writer/reader attribute-key agreement tables; reader-default vs writer skip rule; def-use roles for the inverse-viewport composition order and paint emission"
